@@ -24,6 +24,7 @@ import struct
 from typing import Any
 
 import dns.enum
+import dns.exception
 import dns.inet
 import dns.ipv4
 import dns.ipv6
@@ -71,6 +72,14 @@ class OptionType(dns.enum.IntEnum):
     @classmethod
     def _maximum(cls):
         return 65535
+
+
+def _decode_utf8(wire: bytes) -> str:
+    """Decode the UTF-8 text of an option received from the wire."""
+    try:
+        return wire.decode("utf8")
+    except UnicodeDecodeError as e:
+        raise dns.exception.FormError(f"invalid UTF-8 in option: {e}")
 
 
 class Option:
@@ -433,7 +442,7 @@ class EDEOption(Option):  # lgtm[py/missing-equals]
 
         if text:
             text = text.rstrip(b"\x00")  # text MAY be null-terminated
-            btext = text.decode("utf8")
+            btext = _decode_utf8(text)
         else:
             btext = None
 
@@ -498,7 +507,11 @@ class CookieOption(Option):
     def from_wire_parser(
         cls, otype: OptionType | str, parser: dns.wire.Parser
     ) -> Option:
-        return cls(parser.get_bytes(8), parser.get_remaining())
+        client = parser.get_bytes(8)
+        server = parser.get_remaining()
+        if len(server) != 0 and (len(server) < 8 or len(server) > 32):
+            raise dns.exception.FormError("bad server cookie length")
+        return cls(client, server)
 
 
 class ReportChannelOption(Option):
@@ -547,7 +560,7 @@ class EDEExtraTextLanguageOption(Option):
     def from_wire_parser(
         cls, otype: OptionType | str, parser: dns.wire.Parser
     ) -> Option:
-        return cls(parser.get_remaining().decode("utf8"))
+        return cls(_decode_utf8(parser.get_remaining()))
 
 
 class FilteringContactOption(Option):
@@ -577,7 +590,7 @@ class FilteringContactOption(Option):
     def from_wire_parser(
         cls, otype: OptionType | str, parser: dns.wire.Parser
     ) -> Option:
-        return cls(parser.get_remaining().decode("utf8"))
+        return cls(_decode_utf8(parser.get_remaining()))
 
 
 class FilteringOrganizationOption(Option):
@@ -607,7 +620,7 @@ class FilteringOrganizationOption(Option):
     def from_wire_parser(
         cls, otype: OptionType | str, parser: dns.wire.Parser
     ) -> Option:
-        return cls(parser.get_remaining().decode("utf8"))
+        return cls(_decode_utf8(parser.get_remaining()))
 
 
 class FilteringDBOption(Option):
@@ -641,7 +654,7 @@ class FilteringDBOption(Option):
     def from_wire_parser(
         cls, otype: OptionType | str, parser: dns.wire.Parser
     ) -> Option:
-        return cls(parser.get_remaining().decode("utf8"))
+        return cls(_decode_utf8(parser.get_remaining()))
 
 
 _type_to_class: dict[OptionType, Any] = {
